@@ -24,6 +24,10 @@ type Conn struct {
 
 	closedByNode bool
 	closedByPeer bool
+
+	// MaxRead > 0 makes every Read return at most that many bytes (short reads: the stream arrives
+	// in pieces, as over TCP)
+	MaxRead int
 }
 
 func NewConn() *Conn {
@@ -51,6 +55,9 @@ func (c *Conn) Read(b []byte) (int, error) {
 	c.waiting = false
 	if c.closedByNode {
 		return 0, io.ErrClosedPipe
+	}
+	if c.MaxRead > 0 && len(b) > c.MaxRead {
+		b = b[:c.MaxRead]
 	}
 	n := copy(b, c.in)
 	c.in = c.in[n:]
